@@ -422,6 +422,10 @@ impl C04 {
                     }
                 }
             }
+            if cfg.frontend != Frontend::Nb && r.chance(1, 6) {
+                // the application abandons the operation (drops the future) at one of its waits
+                t.cancel_at = Some(r.below(14) as u16);
+            }
             t.nb_deferred_tx = cfg.frontend == Frontend::Nb && r.chance(1, 4);
             if cfg.frontend == Frontend::Nb && r.chance(1, 8) {
                 t.nb_intrude = (r.range(1, 3) as u8) | ((r.below(3) as u8) << 2);
